@@ -105,6 +105,9 @@ type Program struct {
 	// same program is run once more on other values of the same shapes before the results of
 	// the first run are read - results must not live in storage that later calls reuse
 	Disturb bool `json:"disturb,omitempty"`
+	// UseResult: the result is itself used as an operand of further calls (reshaping, reducing,
+	// arithmetic; their results are dropped) before results and operands are read back
+	UseResult bool `json:"use_result,omitempty"`
 }
 
 // Disturbance runs p once more on junk values (and back-propagates its last value if bp).
@@ -337,14 +340,23 @@ func RunLib(p Program) ([]tensor.Tensor, error) {
 // RunLibBases is RunLib; bases[i] is the leaf tensor behind operand i where the operand is an
 // identity derivation of it (Leaf.Pre), nil otherwise.
 func RunLibBases(p Program) ([]tensor.Tensor, []tensor.Tensor, error) {
-	vals, bases, err := runLib(p)
-	return vals, bases, err
+	return runLib(p, nil)
 }
 
-func runLib(p Program) ([]tensor.Tensor, []tensor.Tensor, error) {
+// RunLibReuse is RunLibBases, except that leaf i is the existing tensor reuse[i] where that is
+// not nil (an untracked tensor built for an earlier run of the same program).
+func RunLibReuse(p Program, reuse []tensor.Tensor) ([]tensor.Tensor, []tensor.Tensor, error) {
+	return runLib(p, reuse)
+}
+
+func runLib(p Program, reuse []tensor.Tensor) ([]tensor.Tensor, []tensor.Tensor, error) {
 	vals := make([]tensor.Tensor, 0, len(p.Leaves)+len(p.Nodes))
 	bases := make([]tensor.Tensor, len(p.Leaves))
 	for i, l := range p.Leaves {
+		if i < len(reuse) && reuse[i] != nil {
+			vals = append(vals, reuse[i])
+			continue
+		}
 		x, err := lib.NewVia(l.Shape, l.Vals, l.Tracked, l.Via)
 		if err != nil {
 			return nil, nil, fmt.Errorf("leaf %d: %w", i, err)
